@@ -478,6 +478,18 @@ def opObjective (op : String) : P String := do
       let yf : Fin n → Int := fun i => y.getD i.val 0
       let G := (lmnnGradCode L X (allTargetPairs targets) (allTriples yf targets) reg)
       return "ok " ++ renderArr G.toArray
+  | "lmnn_run" => do
+      -- the whole fit loop from the captured initialisation (C10_lmnn_monotone is about this loop)
+      let y ← intArr n; let reg ← scalar Float; let kT ← nat
+      let t ← natArr (n * kT)
+      let rate0 ← scalar Float; let maxIter ← nat; let minIter ← nat; let convTol ← scalar Float
+      finish
+      if h : n = 0 then throw "no samples" else
+      let targets : Fin n → List (Fin n) := fun i =>
+        (List.range kT).map fun j => ⟨t.getD (i.val * kT + j) 0 % n, Nat.mod_lt _ (Nat.pos_of_ne_zero h)⟩
+      let yf : Fin n → Int := fun i => y.getD i.val 0
+      let s := lmnnFitCode X (allTargetPairs targets) (allTriples yf targets) reg 200 minIter convTol maxIter L.store rate0
+      return "ok " ++ renderArr (#[s.obj, s.rate] ++ (Mat.ofStore s.L).toArray)
   | _ => throw s!"unknown op {op}"
 
 /-- C13: SDML's graphical-lasso input, objective, duality gap and dual feasibility at a matrix `M` (Float twin) -/
@@ -535,7 +547,7 @@ def dispatch : P String := do
   | "pairs" | "chunks" | "knn_class" | "knn_clip" => opConstraints op
   | "form" => opForm
   | "sdml_eval" => opSdml
-  | "nca_obj" | "mlkr_obj" | "lmnn_obj" | "lmnn_code_obj" | "nca_grad" | "mlkr_grad" | "lmnn_grad" => opObjective op
+  | "nca_obj" | "mlkr_obj" | "lmnn_obj" | "lmnn_code_obj" | "nca_grad" | "mlkr_grad" | "lmnn_grad" | "lmnn_run" => opObjective op
   | "lsml_eval" => opLsml
   | "scml_replay" => opScml
   | "mmc_budget" | "mmc_fd" | "mmc_gradproj" | "mmc_halfspace" | "mmc_psdproj" | "mmc_dobj" => opMmc op
